@@ -210,6 +210,7 @@ bad_nOpts:
       return ReportBadFormat();
   }
   else {         ///////////////// TEXT FORMAT ///////////////
+    bool partial_line = false;   // previous chunk did not end its line
     for(;;) {    ///////////////// SOLVE MESSAGE /////////////
       if (!fgets(buf, sizeof(buf), f)) {
         return ReportEarlyEof();
@@ -220,8 +221,9 @@ bad_nOpts:
           *++se = 0;
           break;
         }
-      if (*buf == '\n')
+      if (*buf == '\n' && !partial_line)
         break;
+      partial_line = se > buf && se[-1] != '\n';
       n1 = se - buf;
       b1 = buf;
       if (buf[0] == '\b' && bs) {
